@@ -24,6 +24,9 @@ mod transform;
 mod util;
 mod walk;
 
+#[cfg(fclones_verif)]
+pub mod verif;
+
 pub use config::{DedupeConfig, GroupConfig, Priority};
 pub use dedupe::{
     dedupe, log_script, run_script, sort_by_priority, DedupeOp, DedupeResult, PartitionedFileGroup,
